@@ -218,4 +218,27 @@ def run(chk, tier):
         for mode in ("read_value", "read_value_preserved"):
             chk.expect(reader[(mode, v)] == "declared", "declared-vs-default", f"reader:{mode}", v, "declared", reader[(mode, v)])
     chk.sample({"rule": "declared-vs-default", "writer": writer, "reader_interpreted": {v: reader[("read_value", v)] for v in variants_vr}})
+    # after a character set switch text has another byte length: the in-memory object remembers the switch (charset_changed) so that the
+    # writer does not reuse the sequence / item lengths recorded at read time. Every tag-addressed mutator of the root data set reports
+    # the tag it touches, the flag is set exactly for (0008,0005), and both writers pass it on as `force_invalidate_sq_length`
+    chk.rule("charset-change-flag", "InMemDicomObject: put_element (behind put), update_value, apply_leaf, apply_change_value_impl and apply_push_str_impl call invalidate_if_charset_changed(<their tag>); "
+             "that helper is `if tag == SPECIFIC_CHARACTER_SET { self.charset_changed = true }`; write_dataset_* build IntoTokensOptions::new(self.charset_changed)")
+    IM_ = "dicom_object::mem::InMemDicomObject"
+    for meth, arg in (("put_element", "elt.tag()"), ("update_value", "tag"), ("apply_leaf", "tag"), ("apply_change_value_impl", "tag"), ("apply_push_str_impl", "tag")):
+        hm_ = fx.method("dicom_object", IM_, meth)
+        cs_ = [H.show(x[5][0], 4) for x in H.walk(hm_["body"]) if H.kind(x) == "mcall" and x[3] == "invalidate_if_charset_changed" and H.path_of(x[4]) == "self"]
+        chk.expect(arg in cs_, "charset-change-flag", meth, "reports-its-tag", f"self.invalidate_if_charset_changed({arg})", cs_, loc=C.fn_loc(hm_))
+    hi_ = fx.method("dicom_object", IM_, "invalidate_if_charset_changed")
+    t_ = re.sub(r"dicom_dictionary_std::tags::", "", H.show(hi_["body"], 8))
+    chk.expect(re.fullmatch(r"\{?if \((tag Eq SPECIFIC_CHARACTER_SET|SPECIFIC_CHARACTER_SET Eq tag)\) \{self\.charset_changed = true;?\}( else -)?\}?", t_) is not None, "charset-change-flag",
+               "invalidate_if_charset_changed", "sets-the-flag-for-0008,0005", "if tag == SPECIFIC_CHARACTER_SET { self.charset_changed = true }", t_, loc=C.fn_loc(hi_))
+    n_w = 0
+    for hh in fx.crate("dicom_object")["hir"]:
+        if hh["path"].startswith(IM_) and re.search(r"::write_dataset_with_ts_cs(_options)?$", hh["path"]):
+            opts = [H.show(x, 5) for c_, x in H.calls(hh["body"]) if c_ and c_.endswith("IntoTokensOptions::new")]
+            if opts:
+                n_w += 1
+                chk.expect(all(o.endswith("IntoTokensOptions::new(self.charset_changed)") for o in opts), "charset-change-flag", hh["path"].split("::")[-1], "flag-reaches-the-token-options",
+                           "IntoTokensOptions::new(self.charset_changed)", opts, loc=C.fn_loc(hh))
+    chk.floor("charset-change-flag", "writers building token options", n_w, 1)
     chk.undecided.append("string round trips through the third-party encoding tables; ISO 2022 escape-sequence handling of multi-valued character sets")
